@@ -6,7 +6,7 @@ import Tengo.Model.Value
 `(eq a b)` `(ne a b)` `(cmp Less|LessEq|Greater|GreaterEq a b)` `(pair a b)` `(falsy a)` `(copy a)`
 `(conv string|int|float|bool|char|bytes|time a [default])`. -/
 namespace Tengo.Drivers.C10
-open Tengo Tengo.Model
+open Tengo Tengo.Model.Val
 
 def toVList : List Value → VList
   | [] => .nil
